@@ -15,6 +15,12 @@ pub const C_CBREADER: u64 = 6;
 pub const C_RELAY_REVERT: u64 = 7;
 pub const C_PROBE_SLOT: u64 = 8;
 pub const C_STORE: u64 = 9;
+pub const C_FACTORY_CREATE: u64 = 16;
+
+/// Address of the contract a create transaction of e3 with nonce 0 deploys (pre-funded in the world).
+pub fn created_by_e3() -> Address {
+    eoa(3).create(0)
+}
 
 pub fn std_world() -> MemDb {
     let mut db = MemDb::default();
@@ -42,6 +48,8 @@ pub fn std_world() -> MemDb {
     db.deploy(contract(C_RELAY_REVERT), kit::relay(contract(C_INCR), kit::CallKind::Call, true, false));
     db.deploy(contract(C_PROBE_SLOT), kit::probe_slot());
     db.deploy(contract(C_STORE), kit::store());
+    db.deploy(contract(C_FACTORY_CREATE), kit::factory_create(&kit::vault_init()));
+    db.fund(created_by_e3(), U256::from(77u64), 0);
     db
 }
 
@@ -115,5 +123,17 @@ pub fn templates() -> Vec<Template> {
         tpl("nonce+5(e0)", eoa(0), &["e0"], |n| transfer(eoa(0), n, eoa(1), 1)).skew(5),
         tpl("nofunds(e5)", eoa(5), &["e5"], |n| transfer(eoa(5), n, eoa(1), 1)),
         tpl("nonce-max(e6)", eoa(6), &["e6"], |n| transfer(eoa(6), n, eoa(1), 1)),
+        // deployment by create transaction (onto an address that already holds a balance) and by
+        // CREATE from a factory, a caller of the former, and a zero-price call that changes nothing
+        // of its sender but the nonce
+        tpl("createtx(e3)", eoa(3), &["e3", "created"], |n| tx(eoa(3), n, None, 0, kit::vault_init().into())),
+        tpl("created.set(3,9)(e1)", eoa(1), &["created"], |n| call(eoa(1), n, created_by_e3(), &[word(3), word(9)])),
+        tpl("factory.create(e1)", eoa(1), &["fcreate"], |n| tx(eoa(1), n, Some(contract(C_FACTORY_CREATE)), 0, Default::default())),
+        tpl("free-incr(e2)", eoa(2), &["incr.s1"], |n| {
+            let mut t = call(eoa(2), n, contract(C_INCR), &[word(1)]);
+            t.gas_price = 0;
+            t
+        })
+        .until_spec(SpecId::LONDON),
     ]
 }
